@@ -12,6 +12,7 @@ Terms are nested tuples (hashable):
   ('payload', t)                  `Some` payload of t when it cannot be simplified
   ('phi', (options...)) ('cyclic', name) ('unknown', why)
 """
+import re
 from facts import norm_std, strip_generics, adt_of
 
 # ---- modelled std functions: callee key -> model name ----------------------------------------------
@@ -823,6 +824,16 @@ class Evaluator:
         """Result term of calling closure term `clo` (an ('agg','closure:<def>',upvars)) with argument terms."""
         if clo[0] == "ref":
             clo = clo[1]
+        if clo[0] == "fnref" and len(args) == 1:
+            # a path to a function used as the mapping (`opt.map(Iterator::copied)`)
+            base = re.sub(r"::<[^>]*>$", "", clo[1].strip())
+            last = base.rsplit("::", 1)[-1]
+            if last in ("copied", "cloned") and "iter::Iterator" in base:
+                return ("call", "Iterator::" + last, (args[0],))
+            if last in ("copied", "cloned") and "option::Option" in base:
+                return ("call", "Option::" + last, (args[0],))
+            if last == "clone" and "Clone" in base:
+                return ("call", "clone", (args[0],))
         if clo[0] != "agg" or not clo[1].startswith("closure:"):
             return ("ret", "closure?", (clo,) + tuple(args), ctx.site)
         d = clo[1][len("closure:"):]
